@@ -72,7 +72,7 @@ func bucket(n int) int {
 	return 1 << uint(math.Ceil(math.Log2(float64(n))))
 }
 
-var valueClasses = []string{"smallint", "f32", "f64", "weldcell", "tiny", "large"}
+var valueClasses = []string{"smallint", "f32", "f64", "weldcell", "tiny", "large", "dyadic"}
 
 // Value draws one coordinate of the given class.
 func Value(r *rand.Rand, class string) float64 {
@@ -88,6 +88,11 @@ func Value(r *rand.Rand, class string) float64 {
 		return float64(r.Intn(17)-8)/4 + (r.Float64()-0.5)*0.0002
 	case "tiny":
 		return (r.Float64() - 0.5) * 1e-3
+	case "dyadic":
+		// round 9 (C02-N): multiples of 1/16 in [-4, 4] - exact in binary, and exactly HALF a rounding step at
+		// 0-3 decimal places for many of them (-0.5, -0.25, 0.125, 0.0625 ...), both signs: where two spellings of
+		// "round to n places" (math.Round, floor(x+0.5), int(x+0.5)) part ways
+		return float64(r.Intn(129)-64) / 16
 	case "residue":
 		// round 8 (C06-M, C05-M): non-zero magnitudes far below any "epsilon" a clean-up may introduce -
 		// trigonometric residue (cos(pi/2), sin(pi)), nano-scale coordinates, the float32 range below 1e-9
